@@ -89,10 +89,10 @@ prop('C06', units=['agg'], level='proof',
      witnesses=[])
 
 prop('C07', units=['drv', 'ord', 'bk'], level='proof',
-     technique='Verus: impl Ord/PartialOrd for Tx and CsvTx == (settlement date, read index); split_txs_by_security == order-preserving filter per security; run_acb_app_to_delta_models: row k of the concatenated files gets read index k, the rows are sorted by (settlement date, read index), each security sees the stable filter of that list; parse_tx_csv / csvtx_from_csv_values (portfolio/io/tx_csv.rs): one row per record of the file in file order, row i gets read index initial + i, and every field of a row is what the cell under its own column denotes -- columns are found by the lower-cased, trimmed header text (spec functions col_name, cell_of, vals_of, csv_row_reads), so column order, header case and padding, unknown columns and blank cells do not matter',
+     technique='Verus: impl Ord/PartialOrd for Tx and CsvTx == (settlement date, read index); split_txs_by_security == order-preserving filter per security; run_acb_app_to_delta_models: row k of the concatenated files gets read index k, the rows are sorted by (settlement date, read index), each security sees the stable filter of that list; parse_tx_csv / csvtx_from_csv_values (portfolio/io/tx_csv.rs): one row per record of the file in file order, row i gets read index initial + i, and every field of a row is what the cell under its own column denotes -- columns are found by the lower-cased, trimmed header text (spec functions col_name, cell_of, vals_of, csv_row_reads), so column order, header case and padding, unknown columns and blank cells do not matter; a file with both a `settlement date` and a deprecated `date` column is refused',
      level_text='Deductive proof (Verus) of the ordering key, of the stable per-security partition, of the read-index assignment and of the by-name reading of the columns, for all files. What the csv crate splits a file into (header fields, records), str::trim / to_lowercase and what a date / number text denotes are uninterpreted functions of the text (shim/csv_stubs.rs).',
      level_note=BK_NOTE + ' std slice::sort is assumed stable and correct w.r.t. cmp_spec. tx_csv.rs: the csv reader is a stand-in (open_csv, headers, records read ahead of the loop, fields as a list), `for (i, x) in e.enumerate()` loops are rewritten with an explicit counter (R9), string-literal match -> if-chain (R30), `&str` hash keys looked up by &str: five axioms (a static string is its text); the dates handed out by the parser are assumed to lie in the supported calendar range (axiom_dates_read); precondition handed down from the entry points: fewer than 2^32 - 1 rows in all files together (read indices are u32).',
-     not_covered=['the csv crate itself (quoting, record splitting), the time crate date parser', 'the both-settlement-date-columns check is verified for absence of panics only'],
+     not_covered=['the csv crate itself (quoting, record splitting), the time crate date parser'],
      witnesses=[])
 
 prop('C08', units=['drv', 'ord', 'agg', 'bk', 'rnd'], level='proof',
